@@ -250,8 +250,9 @@ class Runner:
 
             def work(v):
                 env = {"C17_TRIM": "1"} if v != "fast" else {"C17_TRIM": "0"}
+                # run_batch allows timeout * (1 + items/200) per process: a chunk normally takes 1-10 s
                 results[v] = run_batch(v, DRIVER, texts, env=env, chunk=chunk if v == "fast" else max(200, chunk // 4),
-                                       timeout=300)
+                                       timeout=8 if v == "fast" else 30)
             ths = [threading.Thread(target=work, args=(v,)) for v in variants]
             for th in ths:
                 th.start()
